@@ -28,8 +28,12 @@ func (c *notCond) check() error {
 
 func (c *notCond) string() string {
 	next := c.notC.string()
+	if _, ok := c.notC.(*notCond); ok {
+		// a negation can only be negated as a group
+		return fmt.Sprintf("not (%s)", next)
+	}
 	if strings.HasPrefix(next, "(") {
-		return fmt.Sprintf("not %s", c.notC.string())
+		return fmt.Sprintf("not %s", next)
 	}
 	// insert "not" after the key, which may be quoted and contain spaces
 	keyLen := escapedTokenLen(next)
